@@ -6,34 +6,50 @@ CFG = {
     "trivial_prefix": ("L|L|L|L|L|L|L", "bad-op"),
     "design_ref": "DESIGN.md §5 C16; notes/C16.md",
     "technique": "Lean 4 proof over an executable model of both SoftwrapScanner.Scan loops, firstLineSegment, HardwrapScanner "
-                 "and the Draw row loops (Unicode segmentation/width as oracle parameters); differential correspondence "
-                 "model ≡ real scanners + Spec.Wrap oracle on the real output",
+                 "and Text/RichText.Draw (scanner model composed with C14's surface model; Unicode segmentation/width as oracle "
+                 "parameters); go/ast extractor pinning the guards of both scanners to the model; differential correspondence "
+                 "model = real scanners / real Draw + Spec.Wrap / Spec.WrapDraw oracles on the real output",
     "rule": "one case = one (scanner, text, width range 0..6 or w..w+1) for text.SoftwrapScanner (P), richtext.SoftwrapScanner (R), "
-            "HardwrapScanner (H), Text.Draw/RichText.Draw (DP/DR). Texts: all strings over {a,b,space,-,\\n,世,e+U+0301,U+2060,tab} "
-            "up to length 5 (quick) / 6 (thorough) × widths 0..6, random strings of length 6-7 (quick) / 7-9 (thorough), random "
-            "word-structured texts up to 2000 graphemes over a 30-grapheme alphabet × widths 1..200, and one 65536-column word; "
-            "distinct by op line; non-trivial = at least one line emitted",
+            "HardwrapScanner (H), Text.Draw/RichText.Draw soft wrap (DP/DR), RichText.Draw hard wrap (DH), the 65538-line row "
+            "wrap-around witness (DW). Texts: all strings over {a,b,space,-,\\n,世,e+U+0301,U+2060,tab} "
+            "up to length 5 (quick) / 6 (thorough) x widths 0..6, random strings of length 6-7 (quick) / 7-9 (thorough), random "
+            "word-structured texts up to 2000 graphemes over a 30-grapheme alphabet x widths 1..200, one 65536-column word; Draw for "
+            "lengths <= 3 x Max.Width 1..4 x Max.Height in {0,#lines-1,#lines,#lines+1,12,65535}; distinct by op line; non-trivial = "
+            "at least one line emitted",
     "trusted_base": [
         "uniseg (grapheme/line segmentation, trailing-break test), vaxis.Characters widths and unicode.IsSpace are oracle parameters: "
         "their values are computed by the real libraries in the harness and passed in each op line; theorems quantify over all such "
-        "functions satisfying OracleOK (non-empty first segment; must-break at end of text), which the harness asserts on every query",
+        "functions satisfying OracleOK (non-empty first segment; must-break at end of text), OracleTermW (a terminator is only the last "
+        "cell of a segment, with must-break, for every query whose state belongs to its position) and PosIndep (state -1 inside a "
+        "segment returns the remainder; at a boundary it answers as the carried state) - each asserted by the harness on every query",
         "A-concat: the clustering of a word/line equals the global clustering restricted to it (screened per case; discarded cases are "
-        "counted as plain:aconcat-discard:*; a tab inside an unbreakable word is the main discarded shape)",
+        "counted as plain:aconcat-discard:*; a tab inside an unbreakable word is the main discarded shape; 10 of 77400 quick cases are "
+        "discarded because uniseg is not position independent there)",
+        "C14's model of the drawing code (Model.Layout.drawText on Model.Surface, tied by C14's extractor and correspondence) is imported",
     ],
     "assumptions": [
-        "OracleOK for uniseg.FirstLineSegment (proved for the transcribed richtext.firstLineSegment, checked at run time for text)",
-        "Character.Width >= 0; Go int does not overflow on width sums",
+        "OracleOK / OracleTermW / PosIndep for uniseg.FirstLineSegment (proved for the transcribed richtext.firstLineSegment, checked at run time for text)",
+        "Character.Width >= 0; Go int does not overflow on width sums; line terminators are whitespace (BK, CR, LF, NL are unicode.IsSpace)",
     ],
-    "level_text": "Proved for every text, every width and every oracle meeting OracleOK: scan_terminates / lines_terminate (each Scan "
-                  "returns and strictly shortens rest; width 0 returns false), conservation (non-whitespace graphemes with styles, in order), "
-                  "line_width (no hypothesis at all), hard_break_ends_line (line structure: only the last segment of a line may carry a hard "
-                  "break), no_needless_split (a segment is divided only if its word part is wider than the line); for richtext the oracle "
-                  "hypotheses are proved of the transcribed firstLineSegment, so its statements are unconditional. F44 and F45 were real "
-                  "violations of line_width and are fixed in /repo (one commit each).",
-    "level_note": "Validated by correspondence only (not proved): the complete Draw surface (findContainerSize, WriteCell clipping, Fill; compared cell "
-                  "by cell with the model and checked by the oracle against the scanner's own lines), HardwrapScanner (oracle: split at \\n), "
-                  "the end-to-end Bool oracles hardBreakOK / noNeedlessSplit on real output. Modelled, not verified: tab inside an unbreakable word "
-                  "(long-word split rewrites the tab as 8 spaces), CRLF terminator (only the LF rune is stripped), Max.Height clipping of Draw "
-                  "(C14's F39/F42 fixes are followed by the model: containerSize uses >=; the clipped regime is exercised by random Max.Height values).",
+    "level_text": "Proved for every text, every width and every oracle meeting the hypotheses: termination; whole-text conservation "
+                  "(with styles); line_width (no hypothesis); END TO END for the whole iteration: hard_break_end_to_end (Spec.hardBreakOK, the "
+                  "oracle run on the real output), lines_no_terminator (no emitted line contains a terminator), "
+                  "rich_no_needless_split_end_to_end (Spec.noNeedlessSplit over the pairwise runs) and plain_no_needless_split_end_to_end (any "
+                  "stateful oracle, runs = the segmenter's own segmentation), via the position-tracking invariant lines_are_pieces; for richtext "
+                  "all oracle hypotheses are theorems of the transcribed firstLineSegment. DRAW: rich_draw_rows / text_draw_rows - the surface "
+                  "returned by Draw (model = scanner model composed with C14's NewSurface/Fill/WriteCell/row-loop model) has min(#lines, Max.Height) "
+                  "rows, the width findContainerSize computes, and row y shows line y cell by cell (grapheme j at column = width before it, wide "
+                  "graphemes occupy width columns, every other column blank, lines beyond Max.Height dropped); hardwrap_is_split_at_newline "
+                  "(HardwrapScanner = split at \\n exactly); hard_draw_rows (hard-wrap Draw with its ellipsis). GEN: 21 facts_* theorems over the "
+                  "extracted guards of both Scan functions, firstLineSegment, HardwrapScanner and the Draw loops - scanners_agree (text = rich), "
+                  "operators proved to be the model's tests for all inputs, int sums (F45), state reset (F116). Real violations found and fixed "
+                  "in /repo: F44, F45 (round 1), F116 (stale uniseg state after a long-word split: terminator inside a line, needless split), "
+                  "F216 (row counter wraps at Max.Height 65535). Recorded: F316 (hard-wrap Draw puts an ellipsis on a line that fits exactly; "
+                  "hard_draw_exact_full false with witness, _partial proved).",
+    "level_note": "Validated by correspondence only: that the real uniseg meets OracleOK / OracleTermW / PosIndep on the generated texts (asserted per "
+                  "query); Text.Draw without soft wrap (bufio lines; C14 feeds it). Modelled, not verified: tab inside an unbreakable word "
+                  "(long-word split rewrites the tab as 8 spaces), CRLF terminator (only the LF rune is stripped), texts where uniseg is not "
+                  "position independent (LB14 / LB25 contexts; discarded and counted). The DW witness compares the real surface with the proved "
+                  "row specification instead of executing the List-based model on 65535 rows.",
     "timeout": 1500,
 }
